@@ -99,13 +99,16 @@ Init == /\ wl = [p \in Names |-> NoConf] /\ nodes = {} /\ root = NoConf /\ bt = 
         /\ greg = [p \in Names |-> NoConf] /\ gskip = {} /\ gbase = NoConf
         /\ proj = [p \in Names |-> NoConf]
 
+BuiltinPaths == { <<b>> : b \in Builtin }
+
 (* ---- faithful steps of hook_packages() ---------------------------------------------- *)
 \* _blacklist_packages(): walk down creating inner nodes, then overwrite the last node with
 \* the PackagesTrieBlacklisted leaf (dropping whatever subtree was there).  If an ancestor
 \* already is that leaf the walk continues *inside the shared singleton* and mutates it;
 \* no lookup can see that (is_package_blacklisted stops at the first leaf): unchanged here.
+\* The same holds below (and at) the built-in leaves, which are that singleton too.
 BlacklistOne(b, p) ==
-  IF \E q \in b : PrefixOf(q, p) /\ q # p THEN b
+  IF (\E q \in b : PrefixOf(q, p) /\ q # p) \/ (\E q \in BuiltinPaths : PrefixOf(q, p)) THEN b
   ELSE { q \in b : ~PrefixOf(p, q) } \cup {p}
 RECURSIVE BlacklistAll(_, _)
 BlacklistAll(b, ns) ==
@@ -154,7 +157,6 @@ Install(s) == /\ wl' = s.wl /\ nodes' = s.nodes /\ root' = s.root /\ bt' = s.bt 
 ActiveAllOf(cx, gb) == IF cx = <<>> THEN gb ELSE H(cx[Len(cx)].c)
 ActiveAll == ActiveAllOf(ctx, gbase)
 
-BuiltinPaths == { <<b>> : b \in Builtin }
 IdealSkipped(name, gs) == \E q \in gs \cup BuiltinPaths : PrefixOf(q, name)
 
 IdealLookupOf(name, gr, gs, all) ==
